@@ -48,6 +48,10 @@ func (a baseAlgo) SelectBeacons(_ context.Context, beacons []Beacon, resultSize 
 	if len(beacons) <= resultSize {
 		return beacons
 	}
+	if resultSize == 1 {
+		// There is only room for the best (shortest) beacon.
+		return beacons[:1]
+	}
 
 	result := make([]Beacon, resultSize-1, resultSize)
 	copy(result, beacons[:resultSize-1])
